@@ -305,6 +305,23 @@ impl Driver for C12 {
                     m.sense = Sense::Min;
                 }
             }
+            // operands that are constant sub-expressions: a / (p / q), a - (p - q), a / (p * q), a * (p / q)
+            if rng.gen_bool(0.3) {
+                let nums: Vec<usize> = (0..m.n()).filter(|i| m.types[*i] != VT::Bool).collect();
+                if let Some(&i) = nums.last() {
+                    let (p, q) = ([80.0, 3.0, 0.5, 7.0][rng.gen_range(0..4)], [100.0, 4.0, 0.25, 2.0][rng.gen_range(0..4)]);
+                    let inner = match rng.gen_range(0..4) {
+                        0 => E::div(E::Var(i), E::div(E::Num(p), E::Num(q))),
+                        1 => E::sub(E::Var(i), E::sub(E::Num(p), E::Num(q))),
+                        2 => E::div(E::Var(i), E::mul(E::Num(p), E::Num(q))),
+                        _ => E::mul(E::Var(i), E::div(E::Num(p), E::Num(q))),
+                    };
+                    m.cons.push(Con { name: Some("nested".into()), kind: CKind::Cmp(inner.clone(), Cmp::Le, E::Num(40.0)) });
+                    if m.sense != Sense::Satisfy && rng.gen_bool(0.5) {
+                        m.obj = E::add(m.obj.clone(), inner);
+                    }
+                }
+            }
             if only.is_some_and(|o| o != case) {
                 continue;
             }
